@@ -392,6 +392,9 @@ class State(metaclass=StateMeta):
                     memo,
                 )
                 for key, value in vars(self).items()
+                # attributes only - anything else kept by the instance (i.e. by a cached property)
+                # is not a part of the state, might be impossible to copy and would be skipped anyway
+                if key in self.__ATTRIBUTES__
             }
         )
         return copy
